@@ -12,7 +12,11 @@ use litep2p::{
     codec::ProtocolCodec,
     config::ConfigBuilder,
     crypto::ed25519::Keypair,
-    protocol::{libp2p::{identify, ping}, Direction, TransportEvent, TransportService, UserProtocol},
+    protocol::{
+        libp2p::{identify, ping},
+        request_response::{Config as RrConfig, RequestResponseHandle},
+        Direction, TransportEvent, TransportService, UserProtocol,
+    },
     substream::Substream,
     transport::{quic::config::Config as QuicConfig, tcp::config::Config as TcpConfig, websocket::config::Config as WsConfig},
     types::{protocol::ProtocolName, SubstreamId},
@@ -44,6 +48,9 @@ pub struct NodeCfg {
     pub transport: String,
     /// quinn idle timeout (litep2p takes it from the QUIC `connection_open_timeout`)
     pub quic_idle: Duration,
+    /// a request-response protocol (the only public way to a protocol with fallback names):
+    /// (main name, fallback names)
+    pub rr: Option<(String, Vec<String>)>,
 }
 
 impl NodeCfg {
@@ -59,6 +66,7 @@ impl NodeCfg {
             substream_open_timeout: Duration::from_secs(5),
             transport: "tcp".into(),
             quic_idle: Duration::from_secs(5),
+            rr: None,
         }
     }
 }
@@ -267,6 +275,8 @@ pub struct Node {
     pub protos: HashMap<String, mpsc::Sender<ProtoCmd>>,
     pub exec: Arc<PerturbExecutor>,
     pub alive: bool,
+    /// handle of the request-response protocol, if configured
+    pub rr: Option<Arc<tokio::sync::Mutex<RequestResponseHandle>>>,
     log: Log,
 }
 
@@ -318,6 +328,18 @@ impl Node {
                 log: log.clone(),
                 rx,
             }));
+        }
+        let mut rr = None;
+        if let Some((name, fallbacks)) = &cfg.rr {
+            let (rc, handle) = RrConfig::new(
+                ProtocolName::from(name.clone()),
+                fallbacks.iter().map(|f| ProtocolName::from(f.clone())).collect(),
+                1024,
+                Duration::from_secs(60),
+                None,
+            );
+            b = b.with_request_response_protocol(rc);
+            rr = Some(Arc::new(tokio::sync::Mutex::new(handle)));
         }
         if let Some(iv) = cfg.ping {
             let (pc, mut ev) = ping::ConfigBuilder::new().with_ping_interval(iv).build();
@@ -383,7 +405,7 @@ impl Node {
                 }
             }
         }));
-        Node { name: cfg.name.clone(), peer, listen, app: app_tx, protos, exec, alive: true, log }
+        Node { name: cfg.name.clone(), peer, listen, app: app_tx, protos, exec, alive: true, rr, log }
     }
 
     /// Crash the node: every task (application loop, protocols, connection tasks, transport)
